@@ -35,6 +35,14 @@ pub fn install_panic_hook() {
     }));
 }
 
+/// Removes the session's image file when the session ends.
+pub struct ImgGuard(PathBuf);
+impl Drop for ImgGuard {
+    fn drop(&mut self) {
+        let _ = std::fs::remove_file(&self.0);
+    }
+}
+
 /// Run `f`, returning Err(panic message) if it panicked.
 pub fn guarded<T>(f: impl FnOnce() -> T) -> Result<T, String> {
     LAST_PANIC.with(|p| *p.borrow_mut() = None);
@@ -106,6 +114,7 @@ pub struct Session {
     /// the ids of the graph under observation. Nothing it does may show in the observed graph
     /// (statics, thread-locals, caches keyed by id would).
     bystander: Option<Box<dyn Graph>>,
+    _img: ImgGuard,
 }
 
 impl Session {
@@ -122,6 +131,7 @@ impl Session {
             ops: vec![],
             file_no: 0,
             bystander: if cap >= 2 { guarded(|| new_graph(n, cap)).ok() } else { None },
+            _img: ImgGuard(workdir.join(format!("sl-{}-img.sodg", std::process::id()))),
         }
     }
 
@@ -283,7 +293,9 @@ impl Session {
                 }
             }
             Op::SaveLoad { swap } => {
-                let path = self.tmp_file("sl");
+                // one image path per process, written over and over ("checkpoint file"): a shorter image
+                // lands on a longer older one; removed when the session ends
+                let path = self.workdir.join(format!("sl-{}-img.sodg", std::process::id()));
                 let g = &self.g;
                 let n = self.n;
                 // interaction: one reload in three is preceded by a load() of a truncated copy of the
@@ -302,7 +314,6 @@ impl Session {
                     }
                     load_graph(n, &path)
                 });
-                let _ = std::fs::remove_file(&path);
                 match r {
                     Ok(Ok(l)) => {
                         o.ret = Ret::Res(Ok(String::new()));
